@@ -69,6 +69,27 @@ fn op_sample(j: &Value) -> Value {
     })
 }
 
+fn op_decomp(j: &Value) -> Value {
+    let n = j["n"].as_u64().unwrap() as usize;
+    let a: Vec<f64> = j["a"].as_array().unwrap().iter().map(|v| b2f(v.as_u64().unwrap())).collect();
+    let mut m = momtrop::matrix::SquareMatrix::new_zeros_from_num(&0.0f64, n);
+    for i in 0..n {
+        for k in 0..n {
+            m[(i, k)] = a[i * n + k];
+        }
+    }
+    let settings = TropicalSamplingSettings {
+        matrix_stability_test: j.get("tol").and_then(|v| v.as_u64()).map(b2f),
+        print_debug_info: j.get("debug").and_then(|v| v.as_bool()).unwrap_or(false),
+        return_metadata: false,
+    };
+    match m.decompose_for_tropical(&settings) {
+        Err(momtrop::matrix::MatrixError::ZeroDet) => json!({"status": "zerodet"}),
+        Err(momtrop::matrix::MatrixError::Unstable) => json!({"status": "unstable"}),
+        Ok(r) => json!({"status": "ok", "det": f2b(r.determinant)}),
+    }
+}
+
 fn main() {
     std::panic::set_hook(Box::new(|_| {}));
     let stdin = std::io::stdin();
@@ -81,6 +102,7 @@ fn main() {
         };
         let res = catch_unwind(AssertUnwindSafe(|| match req["op"].as_str() {
             Some("sample") => op_sample(&req),
+            Some("decomp") => op_decomp(&req),
             other => json!({"error": format!("unknown op {:?}", other)}),
         }));
         let ans = match res {
